@@ -3,6 +3,7 @@ package vp
 
 import (
 	"go.nanomsg.org/mangos/v3"
+	"go.nanomsg.org/mangos/v3/protocol"
 	"go.nanomsg.org/mangos/v3/protocol/bus"
 	"go.nanomsg.org/mangos/v3/protocol/pair"
 	"go.nanomsg.org/mangos/v3/protocol/pair1"
@@ -98,4 +99,59 @@ func New(name string) mangos.Socket {
 		return nil
 	}
 	return s
+}
+
+// NewProtocol returns the bare protocol implementation (for harnesses that wrap it before making the socket).
+func NewProtocol(name string) protocol.Protocol {
+	switch name {
+	case "bus":
+		return bus.NewProtocol()
+	case "pair":
+		return pair.NewProtocol()
+	case "pair1":
+		return pair1.NewProtocol()
+	case "pub":
+		return pub.NewProtocol()
+	case "pull":
+		return pull.NewProtocol()
+	case "push":
+		return push.NewProtocol()
+	case "rep":
+		return rep.NewProtocol()
+	case "req":
+		return req.NewProtocol()
+	case "respondent":
+		return respondent.NewProtocol()
+	case "star":
+		return star.NewProtocol()
+	case "sub":
+		return sub.NewProtocol()
+	case "surveyor":
+		return surveyor.NewProtocol()
+	case "xbus":
+		return xbus.NewProtocol()
+	case "xpair":
+		return xpair.NewProtocol()
+	case "xpair1":
+		return xpair1.NewProtocol()
+	case "xpub":
+		return xpub.NewProtocol()
+	case "xpull":
+		return xpull.NewProtocol()
+	case "xpush":
+		return xpush.NewProtocol()
+	case "xrep":
+		return xrep.NewProtocol()
+	case "xreq":
+		return xreq.NewProtocol()
+	case "xrespondent":
+		return xrespondent.NewProtocol()
+	case "xstar":
+		return xstar.NewProtocol()
+	case "xsub":
+		return xsub.NewProtocol()
+	case "xsurveyor":
+		return xsurveyor.NewProtocol()
+	}
+	return nil
 }
